@@ -25,8 +25,11 @@ from . import runner
 
 F32, F64, I64, I32, BOOL, F16 = np.float32, np.float64, np.int64, np.int32, np.bool_, np.float16
 INPUT_MAG = 100.0
-BIND_A = {"N": 2, "M": 3, "K": 5}
-BIND_B = {"N": 3, "M": 5, "K": 4}
+# "P" is a symbolic dim that happens to be 1 while the model is generated (the batch size of an export run): everything that only
+# works because P is 1 there (broadcasting against it, squeezing it) is legal at generation time, and a binding on which the
+# original then fails is discarded by the check - what must not happen is that the optimizer RELIES on P being 1
+BIND_A = {"N": 2, "M": 3, "K": 5, "P": 1}
+BIND_B = {"N": 3, "M": 5, "K": 4, "P": 1}
 SYMS = ["N", "M", "K"]
 
 
@@ -265,7 +268,7 @@ class Gen:
             shape = []
             for _ in range(rank):
                 if self.symbolic and rng.random() < 0.55:
-                    shape.append(rng.choice(SYMS + [None]))
+                    shape.append(rng.choice(SYMS + [None]) if rng.random() > 0.12 else "P")
                 else:
                     shape.append(rng.choice([1, 2, 3, 4, 2, 3, 5, 0] if rng.random() < 0.06 else [1, 2, 3, 4, 2, 3, 5]))
         name = self.fresh("x")
@@ -1700,12 +1703,46 @@ def s_expand_before_binary(g):
         s = g.add("Concat", parts, axis=0, mag=8) if len(parts) > 1 else parts[0]
     e = g.add("Expand", [x, s], mag=x.mag)
     g.hit("motif:expand_before_binary:" + form)
+    if g.rng.random() < 0.4:
+        # three parties: the expand shape comes from y, the OTHER operand of the binary op is a third value that merely
+        # broadcasts against it (its dims may be other symbols that are 1 while the model is generated)
+        others = [v for v in g.visible() if not v.seq and not v.norank and _f32(v) and v is not y and v is not x and 1 <= v.rank <= y.rank and all(
+            _np_bc_to(a.shape, b.shape) for a, b in zip(v.arrs, y.arrs))]
+        if others:
+            y = g.rng.choice(others)
+            g.hit("motif:expand_before_binary:third_operand")
     op = g.rng.choice(["Add", "Mul", "Sub", "Max", "Where"])
     if op == "Where":
         c = g.add("Greater", [y, g.const(np.array(0.0, dtype=F32))], mag=1)
         return g.add("Where", [c, e, y], mag=max(x.mag, y.mag))
     ins = [e, y] if g.rng.random() < 0.5 else [y, e]
     return g.add(op, ins, mag=x.mag * y.mag + x.mag + y.mag)
+
+
+def s_expand_three_party(g):
+    """BinaryOp(Expand(x, Shape(z)), y) with inputs of its own: z carries a symbol (N/M/K) on an axis where x is 1 or absent
+    and y carries ANOTHER symbol there - "P", which is 1 while the model is generated.  Removing the Expand is only right if
+    y supplies the axis, which it does not when P is bound to 1 and the other symbol is not."""
+    if g.depth != 0 or len(g.inputs) > 2:
+        raise Bail("inputs")
+    sym = g.rng.choice(["N", "M", "K"])
+    tail = g.rng.choice([[], [3], [2, 3]])
+    z = g.new_input(dtype=F32, shape=[sym] + tail)
+    y = g.new_input(dtype=F32, shape=["P"] + tail)
+    xs = g.rng.choice([[1] + tail, tail, [1] * (1 + len(tail))]) if tail else [1]
+    x = g.new_input(dtype=F32, shape=xs) if g.rng.random() < 0.5 else g.const(example_input(g.rng, F32, xs, "small"))
+    form = g.rng.choice(["shape_of", "concat_dims"])
+    sh = g.add("Shape", [z], mag=8)
+    if form == "concat_dims":
+        parts = [g.add("Slice", [sh, g.i64([i]), g.i64([i + 1])], mag=8) for i in range(z.rank)]
+        sh = g.add("Concat", parts, axis=0, mag=8) if len(parts) > 1 else parts[0]
+    e = g.add("Expand", [x, sh], mag=x.mag)
+    op = g.rng.choice(["Add", "Mul", "Sub", "Max"])
+    out = g.add(op, [e, y] if g.rng.random() < 0.5 else [y, e], mag=x.mag * y.mag + x.mag + y.mag)
+    g.hit("motif:expand_before_binary:three_party")
+    g.hit("motif:expand_before_binary:shape_of")     # the check applies the expand rule set when it sees this motif
+    g.force_out.append(out)
+    return out
 
 
 def _np_bc_to(a, b):
@@ -1966,7 +2003,7 @@ def s_squeeze_noaxes_sym(g):
 
 
 SYM_MOTIFS = [
-    (s_expand_before_binary, 8), (s_reshape_by_shape, 8), (s_slice_by_shape, 5), (s_scatter_all, 3), (s_matmul_reshape, 2),
+    (s_expand_before_binary, 8), (s_expand_three_party, 3), (s_reshape_by_shape, 8), (s_slice_by_shape, 5), (s_scatter_all, 3), (s_matmul_reshape, 2),
     (s_size_range, 2), (s_squeeze_unsqueeze, 2), (s_dim_arith, 9), (s_squeeze_noaxes_sym, 2), (s_reshape_roundtrip_repeated, 2), (s_scatter_all_shape_start, 2), (s_expand_as_anonymous, 2), (m_shape_chain, 8), (op_expand, 5), (op_reshape, 4), (op_shape, 3),
     (op_constant_of_shape, 2), (m_noop_arith, 3), (m_identity_out, 2), (op_gather, 2), (op_concat, 2), (op_slice, 2),
 ]
